@@ -752,10 +752,11 @@ impl Inverse for WildCdf { fn inverse(&self, _p: f64) -> f64 { self.cut } }
 #[cfg_attr(kani, kani::proof)]
 #[cfg_attr(kani, kani::unwind(8))]
 pub fn quantizer_wild_distribution() {
-    const V: [f64; 4] = [0.0, 0.25, 0.5, 1.0];
+    // support of 128 symbols: free weight 2^7, so that a dip of 2^-7 in the "CDF" cancels exactly the one quantum of leakiness
+    const V: [f64; 4] = [0.0, 0.4921875, 0.5, 1.0];
     let i: u8 = any(); let j: u8 = any(); assume(i < 4 && j < 4);
     let cut: i8 = any();
-    let m = LeakyQuantizer::<f64, i8, u8, 8>::new(-4..=3).quantize(WildCdf { a: V[i as usize], b: V[j as usize], cut: cut as f64 });
+    let m = LeakyQuantizer::<f64, i8, u8, 8>::new(-64..=63).quantize(WildCdf { a: V[i as usize], b: V[j as usize], cut: cut as f64 + 0.5 });
     let s: i8 = any();
     if let Some((_c, p)) = m.left_cumulative_and_probability(s) { assert!(p.get() != 0, "C20: a zero value inside a non-zero probability type (quantised model over a non-monotone distribution)"); }
     cover!(i > j, "decreasing step");
